@@ -236,6 +236,33 @@ func StuckKey(stacks string) string {
 			}
 		}
 	}
+	if len(seen) == 0 {
+		// nothing is blocked on a lock: name what the stalled workers are doing
+		for _, g := range strings.Split(stacks, "\n\n") {
+			if !strings.Contains(g, ".adminOp(") && !strings.Contains(g, "Child.func") {
+				continue
+			}
+			lines := strings.Split(g, "\n")
+			state := ""
+			if i := strings.Index(lines[0], "["); i >= 0 {
+				state = strings.Trim(lines[0][i:], "[]:")
+				if j := strings.Index(state, ","); j >= 0 {
+					state = state[:j]
+				}
+			}
+			for j := 1; j < len(lines); j += 2 {
+				if strings.HasPrefix(lines[j], Internal) && !strings.Contains(lines[j], "c05") && !strings.Contains(lines[j], "C05") {
+					fn := strings.TrimPrefix(lines[j], Internal)
+					if k := strings.Index(fn, "(0x"); k >= 0 {
+						fn = fn[:k]
+					}
+					seen["nolock:"+strings.TrimSuffix(fn, "(...)")+"["+strings.ReplaceAll(state, " ", "_")+"]"] = true
+
+					break
+				}
+			}
+		}
+	}
 	var ks []string
 	for k := range seen {
 		ks = append(ks, k)
